@@ -5,7 +5,7 @@ The model makes every `panic!` / `unwrap` / `expect` / `unreachable!` / out-of-b
 modelled Rust an explicit outcome `fault (panic site)`, both `Failure`s explicit outcomes, and the
 exhaustion of the model's fuel the outcome `fault outOfFuel`.
 
-Proved so far (every world, every consistent answer sequence, any strategy):
+Proved (every world, every consistent answer sequence, any strategy):
 * the partial solution is well-formed in every reachable state (`C05_ps_wf`: the decided prefix, levels,
   indices — this is what the `IndexMap` prefix trick, `swap_indices`, `get_range` rely on);
 * at the pop of the queue none of the following can happen: `extract_solution` panicking on
@@ -50,6 +50,8 @@ import PubgrubProofs.RangeAnyOrder
 import PubgrubProofs.RangeAnyOrder2
 import PubgrubProofs.Termination
 import PubgrubProofs.RangeTermination
+import PubgrubProofs.Decides
+import PubgrubProofs.Typed
 
 namespace Pubgrub.C05
 open Pubgrub
@@ -62,7 +64,7 @@ theorem C05_ps_wf (W : World P S V M) (hW : W.SetsValid) (debug : Bool) (fuel : 
     (h : Reachable W debug fuel root rv x) (hph : x.2.isFinal = false) : x.1.st.ps.WF :=
   reachable_psWF W hW debug fuel root rv x h hph
 
-theorem C05_no_fault_at_pick_partial (W : World P S V M) (hW : W.SetsValid) (debug : Bool) (fuel : Nat)
+theorem C05_no_fault_at_pick (W : World P S V M) (hW : W.SetsValid) (debug : Bool) (fuel : Nat)
     (root : P) (rv : V) (s : SolverState P S V M Pr) (q : List (P × Pr)) (o : Option P)
     (h : Reachable (E := E) W debug fuel root rv (s, .pick q)) :
     (Solver.step (E := E) s (.picked o)).2 ≠ .fault (.panic "Derivations in the Decision part") ∧
@@ -183,6 +185,21 @@ theorem C05_resolve_terminates (W : World P S V M) (hW : W.SetsValid) (root : P)
       (Solver.after (Solver.start debug fuel root rv) as).2 ≠ .fault .outOfFuel :=
   resolve_terminates W hW root rv fw debug
 
+/-- the sharp form: the FIRST final request comes within `N` answers and is `Ok(sel)` with `sel` a
+solution, or `NoSolution` with no solution existing (or the model's `protocolError` for an ill-typed
+answer).  `C05_resolve_terminates` / `C05_resolve_total` below speak about the state after ALL the
+answers of a long run, where a run that returned earlier shows `protocolError "already finished"`; this
+theorem is the one that carries "returns Ok or NoSolution, not by fuel exhaustion". -/
+theorem C05_resolve_returns (W : World P S V M) (hW : W.SetsValid) (root : P) (rv : V)
+    (fw : FiniteWorld W root rv) (debug : Bool) :
+    ∃ N fuel0 : Nat, ∀ fuel, fuel0 ≤ fuel → ∀ as : List (Answer P S V M Pr E), N ≤ as.length →
+      WellBehavedRun W debug fuel root rv as →
+      ∃ k, k ≤ N ∧
+        (Solver.after (Solver.start debug fuel root rv) (as.take k)).2.isFinal = true ∧
+        (∀ j, j < k → (Solver.after (Solver.start debug fuel root rv) (as.take j)).2.isFinal = false) ∧
+        DecidedBy W root rv (Solver.after (Solver.start debug fuel root rv) (as.take k)).2 :=
+  resolve_returns W hW root rv fw debug
+
 theorem C05_resolve_total (W : World P S V M) (hW : W.SetsValid) (root : P) (rv : V)
     (fw : FiniteWorld W root rv) (debug : Bool) :
     ∃ N fuel0 : Nat, ∀ fuel, fuel0 ≤ fuel → ∀ as : List (Answer P S V M Pr E), N ≤ as.length →
@@ -215,6 +232,50 @@ theorem C05_range_resolve_total (W : World P (Range V) V M) (hW : W.RangesWF) (r
   range_resolve_total W hW root rv fr debug
 
 end TerminationAnyOrder
+
+/-! ### `protocolError` is an artefact of the model: typed answers never produce it
+
+`AnswerTyped`: the answer is of the callback's return type, and the `pick` pseudo-answer names a maximal
+queued package (`none` exactly for an empty queue) — what Rust's type system and the priority queue
+guarantee.  For typed, well-behaved runs over a finite registry `resolve` returns, within `N` calls,
+`Ok(sel)` with `sel` a solution or `NoSolution` with no solution existing: nothing else. -/
+section Typed
+
+theorem C05_typed_no_protocolError (W : World P S V M) (debug : Bool) (fuel : Nat) (root : P) (rv : V)
+    (s : SolverState P S V M Pr) (req : Request P S V M Pr E) (a : Answer P S V M Pr E)
+    (h : Reachable W debug fuel root rv (s, req)) (hfin : req.isFinal = false)
+    (ht : AnswerTyped req a) (m : String) : (Solver.step s a).2 ≠ .protocolError m :=
+  step_typed_no_protocolError W debug fuel root rv s req a h hfin ht m
+
+theorem C05_resolve_returns_typed [CanonicalEmpty S V] (W : World P S V M) (hW : W.SetsValid) (root : P) (rv : V)
+    (fw : FiniteWorld W root rv) (debug : Bool) :
+    ∃ N fuel0 : Nat, ∀ fuel, fuel0 ≤ fuel → ∀ as : List (Answer P S V M Pr E), N ≤ as.length →
+      WellBehavedRun W debug fuel root rv as → TypedRun debug fuel root rv as →
+      ∃ k, k ≤ N ∧
+        (Solver.after (Solver.start debug fuel root rv) (as.take k)).2.isFinal = true ∧
+        (∀ j, j < k → (Solver.after (Solver.start debug fuel root rv) (as.take j)).2.isFinal = false) ∧
+        Decided W root rv (Solver.after (Solver.start debug fuel root rv) (as.take k)).2 :=
+  resolve_returns_typed W hW root rv fw debug
+
+end Typed
+
+section TypedAnyOrder
+variable {P V M Pr E : Type} [DecidableEq P] [LinearOrder V] [LE Pr] [DecidableLE Pr]
+
+theorem C05_range_resolve_returns_typed (W : World P (Range V) V M) (hW : W.RangesWF) (root : P) (rv : V)
+    (fr : FiniteRegistry W root) (debug : Bool) :
+    ∃ N fuel0 : Nat, ∀ fuel, fuel0 ≤ fuel → ∀ as : List (Answer P (Range V) V M Pr E), N ≤ as.length →
+      WellBehavedRun W debug fuel root rv as → TypedRun debug fuel root rv as →
+      ∃ k, k ≤ N ∧
+        (Solver.after (Solver.start debug fuel root rv) (as.take k)).2.isFinal = true ∧
+        (∀ j, j < k → (Solver.after (Solver.start debug fuel root rv) (as.take j)).2.isFinal = false) ∧
+        ((∃ sel, (Solver.after (Solver.start debug fuel root rv) (as.take k)).2 = .solution sel ∧
+            IsSolution W root rv (fun p => SmallMap.get sel p)) ∨
+         ((∃ t, (Solver.after (Solver.start debug fuel root rv) (as.take k)).2 = .noSolution t) ∧
+            ¬ ∃ σ : P → Option V, IsSolution W root rv σ)) :=
+  range_resolve_returns_typed W hW root rv fr debug
+
+end TypedAnyOrder
 
 attribute [local instance] BitSet.instVersionSetBitSetFin BitSet.lawful in
 /-- non-vacuity: the termination theorem applied to a concrete two-package registry over the bit set -/
